@@ -83,6 +83,18 @@ func Profile(name string) Knobs {
 		k.PDefer, k.PDeferCall = 0.1, 0.08
 		k.MaxEvents = 70
 		return k
+	case "conc-fail": // C07 with failing commands: slots must be handed back on the error paths too
+		k := base
+		k.MinTasks, k.MaxTasks, k.MaxDeps = 4, 8, 4
+		k.PDep, k.PCall = 0.5, 0.45
+		k.POnce, k.PWC = 0.25, 0.1
+		k.Conc = []int{1, 1, 2, 2, 3}
+		k.PFail, k.MaxFails = 0.25, 3
+		k.PIgnoreCmd = 0.25
+		k.PDefer, k.PDeferCall = 0.15, 0.1
+		k.PSkeleton = 0.15
+		k.MaxEvents = 60
+		return k
 	case "guard": // C13
 		k := base
 		k.PGuard, k.PGuardFail = 0.5, 0.5
